@@ -49,14 +49,23 @@ Pairs == { <<"int", "string">>, <<"uint", "string">>, <<"string", "bytes">>, <<"
 Two == { Cv(p[1], Cv(p[2], Lit(v))) : p \in Pairs, v \in Values }
 Laws == { Bin("==", Cv(p[1], Cv(p[2], Lit(v))), Lit(v)) : p \in { <<"int", "string">>, <<"uint", "string">>, <<"string", "bytes">>, <<"timestamp", "string">>, <<"duration", "string">> },
                                                               v \in IntPool \cup UintPool \cup StrPool \cup TsPool \cup DurPool }
+\* a conversion (or type(), size(), dyn()) of an operand whose evaluation fails is that failure -- however the failure arises:
+\* directly, or as the outcome of a logical operator / conditional that could not absorb it
+ErrLeaf == Bin("/", Lit(IntV(FromInt(1))), Lit(IntV(FromInt(0))))
+ErrCmp == Bin(">", ErrLeaf, Lit(IntV(FromInt(0))))
+Failing == { ErrLeaf, ErrCmp, Bin("||", Lit(Bool(FALSE)), ErrCmp), Bin("||", ErrCmp, Lit(Bool(FALSE))), Bin("&&", Lit(Bool(TRUE)), ErrCmp),
+             CondE(Lit(Bool(TRUE)), ErrLeaf, Lit(IntV(FromInt(1)))), CondE(ErrCmp, Lit(IntV(FromInt(1))), Lit(IntV(FromInt(2)))), Un("!", ErrCmp),
+             Idx(Lit(List(<<>>)), Lit(IntV(FromInt(0)))), Cv("int", Lit(S(<<97>>))) }
+StrictSet == { Cv(f, e) : f \in ConvNames \cup {"type", "size", "dyn"}, e \in Failing }
 Init == prog = Lit(Null) /\ exp = Null
-Next == prog = Lit(Null) /\ prog' \in One1 \cup Two \cup Laws /\ exp' = Eval(prog', <<>>)
+Next == prog = Lit(Null) /\ prog' \in One1 \cup Two \cup Laws \cup StrictSet /\ exp' = Eval(prog', <<>>)
 Spec == Init /\ [][Next]_vars
 Src(v, f, g) == (g = "string" /\ ((f = "int" /\ v.t = "int") \/ (f = "uint" /\ v.t = "uint") \/ (f = "timestamp" /\ v.t = "timestamp") \/ (f = "duration" /\ v.t = "duration")))
                 \/ (f = "string" /\ g = "bytes" /\ v.t = "string")
 \* the round trips of the statement hold for every value of the source type
 RoundTrip == (prog.k = "call" /\ prog.args[1].k = "call" /\ prog.args[1].args[1].k = "lit" /\ Src(prog.args[1].args[1].v, prog.f, prog.args[1].f)) => exp = prog.args[1].args[1].v
 LawsHold == (prog.k = "bin" /\ Src(prog.r.v, prog.l.f, prog.l.args[1].f)) => exp = Bool(TRUE)
+StrictConversions == (prog.k = "call" /\ prog.args[1] \in Failing) => exp = Err
 \* a conversion result is in range for its type or an error
 InRange == /\ (exp.t = "int" => InInt(64, BigOf(exp))) /\ (exp.t = "uint" => InUint(64, BigOf(exp)))
            /\ (exp.t = "timestamp" => InTs(BigOf(exp))) /\ (exp.t = "duration" => InDur(BigOf(exp)))
